@@ -34,7 +34,7 @@ func init() { register(c10{}) }
 func (c10) ID() string    { return "C10" }
 func (c10) Level() string { return "exploration" }
 func (c10) Rule() string {
-	return "one case = one accepted configuration + debug mode + optional outer Vary value + 4..24 requests in a seeded arrival order: populating requests from the probe suite and victims derived from them by mutating a seeded subset of {Origin, ACRM, ACRH, ACRPN, unrelated header} (change / remove / add / multi-value), plus exact duplicates; the simulated cache stores every response and answers later requests that agree on the stored response's Vary-listed headers; distinct = distinct plan hash; non-trivial = at least one cache hit between non-identical requests"
+	return "one case = one accepted configuration + debug mode + optional outer Vary value + 4..24 requests in a seeded arrival order: populating requests from the probe suite and victims derived from them by mutating a seeded subset of {Origin, ACRM, ACRH, ACRPN, unrelated header} (change / remove / add / multi-value), plus exact duplicates; an outer party may have set Vary values (incl. names containing the middleware's own Vary names); in a third of the runs the application handler edits response-header slices in place on a few early requests (those responses are neither stored nor judged); the simulated cache stores every response and answers later requests that agree on the stored response's Vary-listed headers; distinct = distinct plan hash; non-trivial = at least one cache hit between non-identical requests"
 }
 func (c10) Budget(tier string) (int, time.Duration) {
 	if tier == "thorough" {
